@@ -360,3 +360,26 @@ Proof.
   cbn [rev concat app]. rewrite skipn_all2 by lia. rewrite app_nil_r. unfold rgba_plane.
   apply f_equal. apply flat_map_ext_in. intros k Hk. rewrite Nat.sub_0_r. reflexivity.
 Qed.
+
+(* ---------------- checked-build panic freedom of the per-pixel arithmetic (feeds C03) ---------------- *)
+Lemma clip_ok_true v : clip_ok v = true.
+Proof. reflexivity. Qed.
+
+Ltac yuv_ok_tac :=
+  cbv zeta; rewrite ?clip_ok_true;
+  repeat match goal with |- context [mulhi_ok ?a ?c] => rewrite (mulhi_ok_bytes a ltac:(assumption) c ltac:(lia)) end;
+  rewrite !mulhi_spec by (unfold byte in *; lia);
+  repeat match goal with |- context [MultHi ?a ?c] =>
+    let H := fresh "Hm" in pose proof (mulhi_range a c ltac:(unfold byte in *; lia) ltac:(lia)) as H;
+    let m := fresh "m" in set (m := MultHi a c) in * end;
+  repeat (apply andb_true_intro; split); first [reflexivity | apply inr_true; lia | apply Z.leb_le; lia].
+
+Lemma rgb_pair_ok_lemma y0 y1 u v : byte y0 -> byte y1 -> byte u -> byte v -> rgb_pair_ok y0 y1 u v = true.
+Proof. intros Hy0 Hy1 Hu Hv. unfold rgb_pair_ok. yuv_ok_tac. Qed.
+Lemma rgb_tail_ok_lemma y u v : byte y -> byte u -> byte v -> rgb_tail_ok y u v = true.
+Proof. intros Hy Hu Hv. unfold rgb_tail_ok. yuv_ok_tac. Qed.
+Lemma rgba_pair_ok_lemma y0 y1 u v b0 b1 b2 b3 b4 b5 b6 b7 : byte y0 -> byte y1 -> byte u -> byte v ->
+  rgba_pair_ok y0 y1 u v b0 b1 b2 b3 b4 b5 b6 b7 = true.
+Proof. intros Hy0 Hy1 Hu Hv. unfold rgba_pair_ok. yuv_ok_tac. Qed.
+Lemma rgba_tail_ok_lemma y u v : byte y -> byte u -> byte v -> rgba_tail_ok y u v = true.
+Proof. intros Hy Hu Hv. unfold rgba_tail_ok. yuv_ok_tac. Qed.
